@@ -194,20 +194,20 @@ pub open spec fn is_lit(c: Option<Char4OrRegex>, id: Seq<u8>) -> bool {
 //@|    let ghost d = reader.content();
 //@   hint before `let mut offset = 0;`
 //@|    assert(buf@ =~= d);
-//@   loop 1
+//@   loop 1 `offset + 10`
 //@|    invariant
 //@|        buf@ == d, res == d.len(), offset % 10 == 0, offset <= res, res + 10 <= usize::MAX,
 //@|        filters@.len() == offset / 10,
 //@|        forall|k: int| 0 <= k < filters@.len() ==> (#[trigger] filters@[k]).plain(FilterKind::Positive)
 //@|            && is_lit(filters@[k].apid, conv_id(d, 10 * k)) && is_lit(filters@[k].ctid, conv_id(d, 10 * k + 5)), // O:convert_format.inv
 //@|    decreases res - offset,
-//@   loop 2
+//@   loop 2 `char4_len < 4`
 //@|    invariant
 //@|        buf@ == d, res == d.len(), offset + 10 <= res, char4_len <= 4,
 //@|        conv_id_len(d, offset as int, 0) == conv_id_len(d, offset as int, char4_len as int),
 //@|        forall|i: int| 0 <= i < 4 ==> char4_buf@[i] == (if i < char4_len { d[offset + i] } else { 0u8 }),
 //@|    decreases 4 - char4_len,
-//@   loop 3
+//@   loop 3 `char4_len < 4`
 //@|    invariant
 //@|        buf@ == d, res == d.len(), offset + 5 <= res, char4_len <= 4,
 //@|        conv_id_len(d, offset as int, 0) == conv_id_len(d, offset as int, char4_len as int),
